@@ -73,7 +73,7 @@ def main():
         })
     m = {
         "version": 1,
-        "setup_cmd": "cd lean && lake build",
+        "setup_cmd": "PYTHONPATH=/repo /venv/bin/python tools/extract.py && cd lean && lake build",
         "hooks": {
             "guard": "PDPY11_VERIF",
             "enable": "PDPY11_VERIF=1 in the environment of the python process that imports /repo/pdpy11 (the harness sets it)",
